@@ -48,7 +48,60 @@ structure Resp where
   thrPerConn : Bool
   noVec : Bool           -- TLS: vector send disallowed
   nonblk : Bool          -- connection->sk_nonblck
+  aware : Bool := true   -- rq.client_aware when the reply starts: the request has been presented to the application
+  reuse : Bool := true   -- at FULL_REPLY_SENT: keepalive = USE_KEEPALIVE ∧ ¬ read_closed ∧ ¬ discard_request
+  stopErr : Bool := false -- connection->stop_with_error (automatic error reply; implies ¬ reuse)
   deriving Repr, Inhabited
+
+/-- the `enum MHD_RequestTerminationCode` values the reply path reports -/
+inductive Term where
+  | completedOk | withError
+  deriving DecidableEq, Repr, Inhabited
+
+/-- The close path's bookkeeping: the fields MHD_connection_close_, connection_reset and
+    cleanup_connection test and clear, plus ghost counters of what they did. -/
+structure Bk where
+  aware : Bool           -- rq.client_aware
+  respHeld : Bool        -- rp.response ≠ NULL: the connection's reference to the queued response
+  poolLive : Bool        -- connection->pool ≠ NULL
+  cstClosed : Bool       -- connection->state = MHD_CONNECTION_CLOSED (`St.done` covers INIT-after-reset and CLOSED)
+  inCleanup : Bool       -- connection->in_cleanup
+  notes : List Term      -- ghost: the completion notifications delivered to the application, in order
+  respDrops : Nat        -- ghost: MHD_destroy_response calls of this connection on the queued response
+  poolDestroys : Nat     -- ghost: MHD_pool_destroy calls
+  poolResets : Nat       -- ghost: MHD_pool_reset calls
+  cleanups : Nat         -- ghost: insertions into the daemon's clean-up list
+  deriving DecidableEq, Repr, Inhabited
+
+/-- `MHD_connection_close_ (connection, t)` (connection.c:1261): notify if the application knows
+    the request, drop the response reference if still held, destroy the pool if still there,
+    mark closed. -/
+def Bk.close (b : Bk) (t : Term) : Bk :=
+  { b with notes := if b.aware then b.notes ++ [t] else b.notes, aware := false,
+           respDrops := if b.respHeld then b.respDrops + 1 else b.respDrops, respHeld := false,
+           poolDestroys := if b.poolLive then b.poolDestroys + 1 else b.poolDestroys, poolLive := false,
+           cstClosed := true }
+
+/-- `connection_reset (connection, reuse)` (connection.c:7198) -/
+def Bk.reset (b : Bk) (reuse stopErr : Bool) : Bk :=
+  if reuse then
+    { b with notes := if b.aware then b.notes ++ [.completedOk] else b.notes, aware := false,
+             respDrops := if b.respHeld then b.respDrops + 1 else b.respDrops, respHeld := false,
+             poolResets := b.poolResets + 1 }
+  else b.close (if stopErr then .withError else .completedOk)
+
+/-- `cleanup_connection` (connection.c:7080), reached from the CLOSED case of
+    MHD_connection_handle_idle: guarded against a second run; drops the response if it is
+    still referenced; moves the connection to the clean-up list. -/
+def Bk.cleanup (b : Bk) : Bk :=
+  if b.inCleanup then b
+  else { b with inCleanup := true, respDrops := if b.respHeld then b.respDrops + 1 else b.respDrops,
+                respHeld := false, cleanups := b.cleanups + 1 }
+
+/-- what the connection holds when a reply starts -/
+def Bk.init (aware : Bool) : Bk :=
+  { aware := aware, respHeld := true, poolLive := true, cstClosed := false, inCleanup := false, notes := [],
+    respDrops := 0, poolDestroys := 0, poolResets := 0, cleanups := 0 }
 
 structure Conn where
   st : St
@@ -65,6 +118,7 @@ structure Conn where
   sf : Bool              -- rp.resp_sender = MHD_resp_sender_sendfile
   out : Bytes            -- ghost: everything the socket took
   fault : Bool           -- an access outside a buffer / MHD_PANIC would have happened
+  bk : Bk                -- close-path bookkeeping
   deriving Repr, Inhabited
 
 /-- what the application's content reader does when it is asked -/
@@ -130,18 +184,20 @@ def initConn (r : Resp) : Conn :=
     rp := if r.sendBody then 0 else (if r.sizeKnown then r.body.length else sizeUnknown),
     tot := if r.sizeKnown then r.body.length else sizeUnknown,
     ds := 0, dz := if r.kind = .buffer then r.body.length else 0,
-    iovSet := false, isent := 0, irest := [], sf := r.sendfile, out := [], fault := false }
+    iovSet := false, isent := 0, irest := [], sf := r.sendfile, out := [], fault := false,
+    bk := Bk.init r.aware }
 
 /-- `START_REPLY`: build_header_response() needs pool memory; failure closes the connection -/
 def startReply (r : Resp) (allocOk : Bool) : Conn :=
-  if allocOk then initConn r else { initConn r with st := .closed, wb := [], ao := 0 }
+  if allocOk then initConn r
+  else { initConn r with st := .closed, wb := [], ao := 0, bk := (Bk.init r.aware).close .withError }
 
-/-- CONNECTION_CLOSE_ERROR -/
-def closeErr (c : Conn) : Conn := { c with st := .closed }
+/-- CONNECTION_CLOSE_ERROR: MHD_connection_close_ (…, MHD_REQUEST_TERMINATED_WITH_ERROR) -/
+def closeErr (c : Conn) : Conn := { c with st := .closed, bk := c.bk.close .withError }
 /-- MHD_connection_close_ (…, MHD_REQUEST_TERMINATED_COMPLETED_OK) at the end of a
     close-delimited body -/
-def closeOk (c : Conn) : Conn := { c with st := .done }
-def setFault (c : Conn) : Conn := { c with st := .closed, fault := true }
+def closeOk (c : Conn) : Conn := { c with st := .done, bk := c.bk.close .completedOk }
+def setFault (c : Conn) : Conn := { c with st := .closed, fault := true, bk := c.bk.close .withError }
 
 /-- `check_write_done` -/
 def checkWriteDone (c : Conn) (next : St) : Conn :=
@@ -219,13 +275,17 @@ def idleStep (r : Resp) (c : Conn) (app : AppAns) (allocOk : Bool) : Conn :=
     -- build_connection_chunked_response_footer (needs write-buffer space)
     if allocOk then { c with wb := r.footer, so := 0, ao := r.footer.length, st := .footersSending }
     else closeErr c
-  | .fullReplySent => { c with st := .done }           -- connection_reset
+  | .fullReplySent => { c with st := .done, bk := c.bk.reset r.reuse r.stopErr }   -- connection_reset
   | _ => c
 
+/-- the CLOSED case of the loop in MHD_connection_handle_idle: `cleanup_connection` -/
+def idleClosed (c : Conn) : Conn := if c.bk.cstClosed then { c with bk := c.bk.cleanup } else c
+
 /-- `MHD_connection_handle_idle`: the `while` loop runs transitions until a state `break`s;
-    four iterations cover the longest chain (HEADERS_SENT → … → FOOTERS_SENDING) -/
+    four iterations cover the longest chain (HEADERS_SENT → … → FOOTERS_SENDING); a connection that
+    is (or has just been) closed ends in the CLOSED case -/
 def handleIdle (r : Resp) (c : Conn) (app : AppAns) (allocOk : Bool) : Conn :=
-  idleStep r (idleStep r (idleStep r (idleStep r c app allocOk) app allocOk) app allocOk) app allocOk
+  idleClosed (idleStep r (idleStep r (idleStep r (idleStep r c app allocOk) app allocOk) app allocOk) app allocOk)
 
 /-- common tail of the three write-buffer states: account `ret`, then `check_write_done` -/
 def wbAccount (c : Conn) (o : SendOut) (next : St) : Conn :=
